@@ -108,6 +108,32 @@ class Check:
             self.rule_errors.append({'rule_fn': getattr(fn, '__name__', str(fn)), 'error': repr(e), 'trace': tb[-1500:]})
             print('RULE-ERROR %s %s: %r' % (self.pid, getattr(fn, '__name__', fn), e), file=sys.stderr)
 
+    def adopt(self, sub_rule, R):
+        """Move the obligations recorded under another property's rule id to this property's rule R (shared rules)."""
+        sub = self.rules.pop(sub_rule, None)
+        if sub is None:
+            return
+        self.rules[R]['obligations'] += sub['obligations']
+        self.rules[R]['discharged'] += sub['discharged']
+        self.rules[R]['instances'] += sub['instances']
+        for v in self.violations:
+            if v['rule'] == sub_rule:
+                v['rule'] = R
+                v['key'] = v['key'].replace(sub_rule + ':', R + ':', 1)
+        for f in self.floors:
+            if f['rule'] == sub_rule:
+                f['rule'] = R
+
+    def shared(self, R, fn, sub_rule, *a):
+        """Run a rule function of another property and file its results under R."""
+        saved = self.rules.pop(sub_rule, None)
+        try:
+            self.run(fn, *a)
+        finally:
+            self.adopt(sub_rule, R)
+            if saved is not None:
+                self.rules[sub_rule] = saved
+
     def sample(self, s):
         if len(self.samples) < 60:
             self.samples.append(s)
